@@ -5,6 +5,6 @@ cd "$(dirname "$0")"
 export PYTHONHASHSEED=0 PYTHONPATH=/repo LASIO_VERIF=1
 /venv/bin/python translators/run_all.py || true
 cd coq
-coq_makefile -f _CoqProject -o Makefile
+./gen_project.sh
 timeout 3000 make -j16
 echo "setup ok"
